@@ -3,28 +3,37 @@
 //
 //	<kind> <k> <op>;<op>;…  |  <res>/<dump v0>/…/<dump v(k-1)>;…
 //
-// kind is X (exhaustive small scope) or H (random history); k the number of variables.  Ops
-// (i, j variable indices, L a comma list of ints or "." for none):
+// kind is X (exhaustive small scope), B (big sets) or H (random history); k the number of
+// variables.  Ops (i, j variable indices, L a comma list of ints or "." for none):
 //
-//	new:i:L newsize:i:n nil:i clone:i:j isect:i:J range:i:L keys:i:L values:i:L   v_i = …
-//	add:i:L addall:i:j rm:i:L rmall:i:j clear:i pop:i:X                          mutators
-//	has:i:x hasall:i:L hasany:i:L len:i empty:i meets:i:j sub:i:j eq:i:j         predicates
-//	slice:i:O append:i:V:O                                                       V prefix (n = nil slice)
+//	new:i:L newsize:i:n nil:i clone:i:j isect:i:J range:i:L|nil keys:i:L|nil values:i:L|nil   v_i = …
+//	add:i:L addall:i:j rm:i:L rmall:i:j clear:i pop:i:X                                      mutators
+//	has:i:x hasall:i:L hasany:i:L len:i empty:i meets:i:j sub:i:j eq:i:j                     predicates
+//	slice:i:O append:i:V:O                                                                   V prefix (n = nil slice)
+//
+// (range:i:nil is Range of the nil iterator function, keys/values:i:nil the nil map; newsize takes
+// any int, negative and huge hints included.)
 //
 // X (the element Pop returned) and O (the order in which Slice/Append listed the members) are
 // decided by the Go runtime: they are ORACLE fields.  The harness ignores whatever the input says
 // there, runs the implementation and writes the observed value back into the input it records, so
 // the model can validate it against the specification of map iteration and then use it.
 //
-// res: c<nonnil><aliased> for constructors, s<same map as receiver><aliased with argument> for
-// mutators, e<x> Pop, b<0|1>, i<n>, l<nonnil>:<prefix as is>:<rest sorted>, PANIC:<kind>.
-// dump: n (nil) or <Len><E|F IsEmpty>:<Has mask over 0..7>:<sorted keys by ranging the map>.
-// "aliased" is measured by poisoning: a sentinel is inserted into the result (or receiver) and
-// looked for in the argument(s) and in every other variable, and vice versa, then removed.
+// res: for every call that returns a set  S<identity><=|!><0|1>  where identity says which map was
+// returned, by address, relative to the state BEFORE the call: nil, new (an address never seen in
+// this case; every map ever seen is kept alive, so addresses are not reused), v<j> (the map
+// variable j held; smallest such j), old (seen before but held by no variable); = iff the
+// receiver/destination variable holds the returned map after the call; the last digit is 1 iff
+// poisoning (insert a sentinel into one map, look for it in the other) disagrees with the
+// address comparison for the returned map against any map of the pre-state.
+// e<x> Pop, b<0|1>, i<n>, l<nonnil>:<prefix as is>:<rest sorted>, PANIC:<kind>.
+// dump: n (nil) or <Len><E|F IsEmpty>:<Has mask over 0..7>:<sorted keys by ranging the map>@<a>,
+// a = the smallest index of a variable holding the same map (its own index unless two share one).
 package main
 
 import (
 	"fmt"
+	"iter"
 	"reflect"
 	"slices"
 	"sort"
@@ -37,7 +46,7 @@ import (
 
 type set = mapset.Set[int]
 
-const sentinel = 99
+const sentinel = -7777777 // never an element of any generated set
 const maskN = 8
 
 func ptr(m set) uintptr {
@@ -63,7 +72,8 @@ func parseList(s string) ([]int, bool) {
 	return out, true
 }
 
-func dump(m set) string {
+func dump(vars []set, idx int) string {
+	m := vars[idx]
 	if m == nil {
 		// still ask the nil set everything the API offers
 		if m.Len() != 0 || !m.IsEmpty() || m.Has(0) {
@@ -84,11 +94,18 @@ func dump(m set) string {
 	if m.IsEmpty() {
 		e = "E"
 	}
-	return strconv.Itoa(m.Len()) + e + ":" + mask.String() + ":" + tr.Ints(keys)
+	a := idx
+	for j := 0; j < idx; j++ {
+		if ptr(vars[j]) == ptr(m) {
+			a = j
+			break
+		}
+	}
+	return strconv.Itoa(m.Len()) + e + ":" + mask.String() + ":" + tr.Ints(keys) + "@" + strconv.Itoa(a)
 }
 
-// aliased reports whether a and b share storage, by mutating one and re-reading the other.
-func aliased(a, b set) bool {
+// poisoned reports whether a and b share storage, by mutating one and re-reading the other.
+func poisoned(a, b set) bool {
 	if a == nil || b == nil {
 		return false
 	}
@@ -103,7 +120,47 @@ func aliased(a, b set) bool {
 		res = true
 	}
 	delete(b, sentinel)
-	return res || ptr(a) == ptr(b)
+	return res
+}
+
+// mem remembers every map address seen in the current case and keeps the maps reachable, so that a
+// new allocation can never reuse the address of a dropped map.
+type mem struct {
+	seen map[uintptr]bool
+	keep []set
+}
+
+func (c *mem) note(ms ...set) {
+	for _, m := range ms {
+		if m != nil && !c.seen[ptr(m)] {
+			c.seen[ptr(m)] = true
+			c.keep = append(c.keep, m)
+		}
+	}
+}
+
+// ident: which map is r, relative to the variables as they were before the call; and does
+// poisoning agree with the address comparison?
+func (c *mem) ident(pre []set, r set) (string, bool) {
+	if r == nil {
+		return "nil", false
+	}
+	id := "new"
+	if c.seen[ptr(r)] {
+		id = "old"
+	}
+	for j := len(pre) - 1; j >= 0; j-- {
+		if pre[j] != nil && ptr(pre[j]) == ptr(r) {
+			id = "v" + strconv.Itoa(j)
+		}
+	}
+	disagree := false
+	for _, m := range pre {
+		if m != nil && poisoned(r, m) != (ptr(r) == ptr(m)) {
+			disagree = true
+		}
+	}
+	return id, disagree
 }
 
 // run executes one case; it returns the input with the oracle fields filled in and the output.
@@ -117,6 +174,7 @@ func run(in string) (string, string) {
 		return in, "?"
 	}
 	vars := make([]set, k)
+	c := &mem{seen: map[uintptr]bool{}}
 	var ops []string
 	if len(f) >= 3 {
 		ops = strings.Split(f[2], ";")
@@ -124,20 +182,21 @@ func run(in string) (string, string) {
 	outs := make([]string, 0, len(ops))
 	newOps := make([]string, 0, len(ops))
 	for _, op := range ops {
-		nop, res := runOp(vars, op)
+		nop, res := runOp(c, vars, op)
+		c.note(vars...)
 		newOps = append(newOps, nop)
 		var sb strings.Builder
 		sb.WriteString(res)
-		for _, v := range vars {
+		for j := range vars {
 			sb.WriteString("/")
-			sb.WriteString(dump(v))
+			sb.WriteString(dump(vars, j))
 		}
 		outs = append(outs, sb.String())
 	}
 	return f[0] + " " + f[1] + " " + strings.Join(newOps, ";"), strings.Join(outs, ";")
 }
 
-func runOp(vars []set, op string) (nop string, res string) {
+func runOp(c *mem, vars []set, op string) (nop string, res string) {
 	nop = op
 	p := strings.Split(op, ":")
 	bad := func() (string, string) { return op, "?" }
@@ -158,18 +217,16 @@ func runOp(vars []set, op string) (nop string, res string) {
 		}
 		return "."
 	}
-	// others: is the fresh result aliased with any argument or any other variable?
-	fresh := func(r set, args ...set) string {
-		a := false
-		for _, x := range args {
-			a = a || aliased(r, x)
+	pre := slices.Clone(vars)
+	// returned: the result string of a call that returned the set r (vars[i] already updated)
+	returned := func(r set) string {
+		id, disagree := c.ident(pre, r)
+		c.note(r)
+		eq := "!"
+		if ptr(r) == ptr(vars[i]) {
+			eq = "="
 		}
-		for j, v := range vars {
-			if j != i {
-				a = a || aliased(r, v)
-			}
-		}
-		return "c" + tr.B(r != nil) + tr.B(a)
+		return "S" + id + eq + tr.B(disagree)
 	}
 	pan := tr.Catch(func() {
 		switch p[0] {
@@ -179,34 +236,31 @@ func runOp(vars []set, op string) (nop string, res string) {
 				res = "?"
 				return
 			}
-			old := vars[i]
 			vars[i] = mapset.New(l...)
-			res = fresh(vars[i], old)
+			res = returned(vars[i])
 			// the argument slice is not retained: poison it
 			for x := range l {
 				l[x] = sentinel
 			}
 		case "newsize":
-			n, err := strconv.Atoi(arg(2))
-			if err != nil || n < 0 || n > 1<<16 {
+			n, err := strconv.ParseInt(arg(2), 10, 64)
+			if err != nil || (n > 1<<16 && n < 1<<62) { // mid-size hints really allocate
 				res = "?"
 				return
 			}
-			old := vars[i]
-			vars[i] = mapset.NewSize[int](n)
-			res = fresh(vars[i], old)
+			vars[i] = mapset.NewSize[int](int(n))
+			res = returned(vars[i])
 		case "nil":
 			vars[i] = nil
-			res = "c00"
+			res = "Snil=0"
 		case "clone":
 			j, ok := idx(arg(2))
 			if !ok {
 				res = "?"
 				return
 			}
-			src := vars[j]
-			vars[i] = src.Clone()
-			res = fresh(vars[i], src)
+			vars[i] = vars[j].Clone()
+			res = returned(vars[i])
 		case "isect":
 			js, ok := parseList(arg(2))
 			if !ok {
@@ -222,46 +276,58 @@ func runOp(vars []set, op string) (nop string, res string) {
 				args = append(args, vars[j])
 			}
 			vars[i] = mapset.Intersect(args...)
-			res = fresh(vars[i], args...)
+			res = returned(vars[i])
 		case "range":
-			l, ok := parseList(arg(2))
-			if !ok {
-				res = "?"
-				return
+			var it iter.Seq[int]
+			if arg(2) != "nil" {
+				l, ok := parseList(arg(2))
+				if !ok {
+					res = "?"
+					return
+				}
+				it = slices.Values(l)
 			}
-			old := vars[i]
-			vars[i] = mapset.Range(slices.Values(l))
-			res = fresh(vars[i], old)
+			r := mapset.Range(it) // panics for the nil function: the variable keeps its value
+			vars[i] = r
+			res = returned(vars[i])
 		case "keys":
-			l, ok := parseList(arg(2))
-			if !ok {
-				res = "?"
-				return
+			var m map[int]string
+			var l []int
+			if arg(2) != "nil" {
+				var ok bool
+				l, ok = parseList(arg(2))
+				if !ok {
+					res = "?"
+					return
+				}
+				m = map[int]string{}
+				for _, x := range l {
+					m[x] = "v"
+				}
 			}
-			m := map[int]string{}
-			for _, x := range l {
-				m[x] = "v"
-			}
-			old := vars[i]
 			vars[i] = mapset.Keys(m)
-			res = fresh(vars[i], old)
-			if len(m) != len(mapset.New(l...)) { // the argument map is left alone
+			res = returned(vars[i])
+			if len(m) != len(mapset.New(l...)) || (arg(2) == "nil") != (m == nil) { // the argument map is left alone
 				res += "!"
 			}
 		case "values":
-			l, ok := parseList(arg(2))
-			if !ok {
-				res = "?"
-				return
+			var m map[int]int
+			var l []int
+			if arg(2) != "nil" {
+				var ok bool
+				l, ok = parseList(arg(2))
+				if !ok {
+					res = "?"
+					return
+				}
+				m = map[int]int{}
+				for n, x := range l {
+					m[1000+n] = x
+				}
 			}
-			m := map[int]int{}
-			for n, x := range l {
-				m[1000+n] = x
-			}
-			old := vars[i]
 			vars[i] = mapset.Values(m)
-			res = fresh(vars[i], old)
-			if len(m) != len(l) {
+			res = returned(vars[i])
+			if len(m) != len(l) || (arg(2) == "nil") != (m == nil) {
 				res += "!"
 			}
 		case "add":
@@ -271,7 +337,7 @@ func runOp(vars []set, op string) (nop string, res string) {
 				return
 			}
 			r := vars[i].Add(l...)
-			res = "s" + tr.B(ptr(r) == ptr(vars[i])) + "0"
+			res = returned(r)
 			for x := range l {
 				l[x] = sentinel
 			}
@@ -282,11 +348,7 @@ func runOp(vars []set, op string) (nop string, res string) {
 				return
 			}
 			r := vars[i].AddAll(vars[j])
-			a := false
-			if i != j {
-				a = aliased(vars[i], vars[j])
-			}
-			res = "s" + tr.B(ptr(r) == ptr(vars[i])) + tr.B(a)
+			res = returned(r)
 		case "rm":
 			l, ok := parseList(arg(2))
 			if !ok {
@@ -294,7 +356,7 @@ func runOp(vars []set, op string) (nop string, res string) {
 				return
 			}
 			r := vars[i].Remove(l...)
-			res = "s" + tr.B(ptr(r) == ptr(vars[i])) + "0"
+			res = returned(r)
 		case "rmall":
 			j, ok := idx(arg(2))
 			if !ok {
@@ -302,14 +364,10 @@ func runOp(vars []set, op string) (nop string, res string) {
 				return
 			}
 			r := vars[i].RemoveAll(vars[j])
-			a := false
-			if i != j {
-				a = aliased(vars[i], vars[j])
-			}
-			res = "s" + tr.B(ptr(r) == ptr(vars[i])) + tr.B(a)
+			res = returned(r)
 		case "clear":
 			r := vars[i].Clear()
-			res = "s" + tr.B(ptr(r) == ptr(vars[i])) + "0"
+			res = returned(r)
 		case "pop":
 			x := vars[i].Pop()
 			res = "e" + strconv.Itoa(x)
@@ -499,10 +557,30 @@ func (g *gen) exhaustive() {
 			"newsize:0:0", "newsize:1:3;addall:1:0", "nil:0;pop:0:?;rm:0:1;clear:0;slice:0:?"} {
 			g.emit("X 2 "+pre+op, true, append(tags, "exhaustive-unary")...)
 		}
+		// self-application once more, followed by reads and writes of the same variable
+		for _, op := range []string{"addall:0:0;add:0:5;pop:0:?", "rmall:0:0;len:0;add:0:1", "isect:0:0;add:0:5", "isect:0:0,0;rm:0:0", "clone:0:0;rmall:0:0",
+			"eq:0:0;sub:0:0;meets:0:0;rmall:0:0;eq:0:0;sub:0:0;meets:0:0"} {
+			g.emit("X 1 "+pre+op, true, append(tags, "self-application")...)
+		}
+		// degenerate arguments: no items at all, the nil iterator, nil maps, negative and huge size hints
+		for _, op := range []string{"add:0:.;rm:0:.;hasall:0:.;hasany:0:.", "range:1:nil;add:1:5", "range:0:nil", "keys:1:nil;add:1:5", "values:1:nil;add:1:5", "keys:0:nil", "values:0:nil",
+			"newsize:1:-1;add:1:1;addall:1:0", "newsize:0:-9223372036854775808", "newsize:1:9223372036854775807;add:1:2", "newsize:0:-1099511627776", "isect:1:.;add:1:5", "new:0:.", "append:0:.:?"} {
+			g.emit("X 2 "+pre+op, true, append(tags, "degenerate-argument")...)
+		}
 		allLists(U+1, g.o.Scale(2, 3), func(l []int) {
 			ls := tr.Ints(l)
+			t := append(tags, "exhaustive-items")
+			if len(l) == 0 {
+				t = append(t, "no-items")
+			}
+			for x := range l {
+				if slices.Contains(l[:x], l[x]) {
+					t = append(t, "items-with-repeats")
+					break
+				}
+			}
 			for _, op := range []string{"hasall", "hasany", "add", "rm"} {
-				g.emit(fmt.Sprintf("X 1 %s%s:0:%s", pre, op, ls), a <= 0 || len(l) == 0, append(tags, "exhaustive-items")...)
+				g.emit(fmt.Sprintf("X 1 %s%s:0:%s", pre, op, ls), true, t...)
 			}
 		})
 	}
@@ -519,6 +597,36 @@ func (g *gen) exhaustive() {
 			for c := -1; c < 1<<U3; c++ {
 				g.emit("X 4 "+initOp(0, a, U3)+";"+initOp(1, b, U3)+";"+initOp(2, c, U3)+";isect:3:0,1,2;add:3:5", true, "exhaustive-intersect3")
 			}
+		}
+	}
+}
+
+func rangeList(lo, hi int) string {
+	l := make([]int, 0, hi-lo)
+	for x := lo; x < hi; x++ {
+		l = append(l, x)
+	}
+	return tr.Ints(l)
+}
+
+// big: sets beyond one bucket/group of the runtime's map (9 … 300 elements): self-application
+// (deleting from / inserting into the map being ranged over), draining by Pop, overlapping operands.
+func (g *gen) big() {
+	sizes := []int{9, 17, 40, 130}
+	if g.o.Thorough() {
+		sizes = append(sizes, 64, 65, 300)
+	}
+	for _, n := range sizes {
+		a := "new:0:" + rangeList(0, n) + ";"
+		b := "new:1:" + rangeList(n/2, n+n/2) + ";"
+		pops := strings.Repeat("pop:0:?;", n+1)
+		for _, op := range []string{"rmall:0:0;len:0;add:0:1", "addall:0:0;len:0", "eq:0:0;sub:0:0;meets:0:0", "isect:1:0,0;eq:1:0;rmall:1:1;len:0",
+			"clone:1:0;rmall:0:1;len:1", pops + "len:0", "slice:0:?", "append:0:7:?", "hasall:0:" + rangeList(0, n) + ";hasany:0:" + rangeList(n, n+3),
+			"rm:0:" + rangeList(0, n+2) + ";add:0:1"} {
+			g.emit("B 2 "+a+strings.TrimSuffix(op, ";"), true, "big-sets", "big-unary")
+		}
+		for _, op := range []string{"rmall:0:1", "rmall:1:0", "addall:0:1", "meets:0:1;meets:1:0", "sub:0:1;eq:0:1", "isect:2:0,1", "isect:2:1,0,1", "addall:2:0;rmall:2:1;rmall:2:2"} {
+			g.emit("B 3 "+a+b+op, true, "big-sets", "big-pair")
 		}
 	}
 }
@@ -567,7 +675,11 @@ func (g *gen) history() {
 			}
 			ops = append(ops, fmt.Sprintf("isect:%d:%s", i, tr.Ints(js)))
 		case c < 74:
-			ops = append(ops, fmt.Sprintf("%s:%d:%s", tr.Pick(g.r, []string{"range", "keys", "values"}), i, g.randList(u, 5)))
+			l := g.randList(u, 5)
+			if g.r.Chance(1, 6) {
+				l = "nil"
+			}
+			ops = append(ops, fmt.Sprintf("%s:%d:%s", tr.Pick(g.r, []string{"range", "keys", "values"}), i, l))
 		case c < 78:
 			ops = append(ops, fmt.Sprintf("%s:%d:%s", tr.Pick(g.r, []string{"hasall", "hasany"}), i, g.randList(u, 3)))
 		case c < 90:
@@ -582,13 +694,21 @@ func (g *gen) history() {
 				ops = append(ops, fmt.Sprintf("pop:%d:?", i))
 			}
 		default:
-			ops = append(ops, fmt.Sprintf("newsize:%d:%d", i, g.r.Intn(5)))
+			ops = append(ops, fmt.Sprintf("newsize:%d:%d", i, g.r.Intn(7)-2))
 		}
 	}
-	g.emit(fmt.Sprintf("H %d %s", k, strings.Join(ops, ";")), true, "random-history")
+	tags := []string{"random-history"}
+	for _, o := range ops {
+		f := strings.Split(o, ":")
+		if len(f) == 3 && f[1] == f[2] && (f[0] == "addall" || f[0] == "rmall" || f[0] == "meets" || f[0] == "sub" || f[0] == "eq") {
+			tags = append(tags, "history-with-self-application")
+			break
+		}
+	}
+	g.emit(fmt.Sprintf("H %d %s", k, strings.Join(ops, ";")), true, tags...)
 }
 
-const rule = "C18: every binary operation (AddAll, RemoveAll, Intersects, IsSubset, Equals, Intersect into a third/the first/the second variable) on every ordered pair of operands from {nil} + the 16 subsets of {0..3}, each also followed by mutations of result and argument (aliasing poison); every unary operation and every self-application (s op s) on the 17 operands; HasAll/HasAny/Add/Remove with every item list to length 2 (quick) / 3 (thorough) over {0..4}; New/Range/Keys/Values on every list to length 3; Intersect on every triple over {nil} + subsets of {0,1,2}; random histories of 5-40 operations over 2-4 variables and universes of 3-7 elements, with variables reset to nil, cleared and drained by Pop.  After every operation every variable is dumped (nil-ness, Len, IsEmpty, Has over 0..7, sorted keys).  The element Pop returned and the order Slice/Append produced are recorded as oracle inputs.  Every case is non-trivial except item-list cases on a non-empty set with a non-empty list; distinct = distinct recorded inputs."
+const rule = "C18: (identity of every returned map by address, relative to the variables before the call, and which variables share a map, are part of every output) every binary operation (AddAll, RemoveAll, Intersects, IsSubset, Equals, Intersect into a third/the first/the second variable) on every ordered pair of operands from {nil} + the 16 subsets of {0..3}, each also followed by mutations of result and argument (aliasing poison); every unary operation and every self-application (s op s, also followed by reads and writes) on the 17 operands; degenerate arguments (no items, the nil iterator function, nil maps, negative and huge size hints); big sets of 9-130 (thorough: -300) elements with self-application, draining by Pop and overlapping operands; HasAll/HasAny/Add/Remove with every item list to length 2 (quick) / 3 (thorough) over {0..4}; New/Range/Keys/Values on every list to length 3; Intersect on every triple over {nil} + subsets of {0,1,2}; random histories of 5-40 operations over 2-4 variables and universes of 3-7 elements, with variables reset to nil, cleared and drained by Pop.  After every operation every variable is dumped (nil-ness, Len, IsEmpty, Has over 0..7, sorted keys).  The element Pop returned and the order Slice/Append produced are recorded as oracle inputs.  Every case is non-trivial; distinct = distinct recorded inputs."
 
 func main() {
 	o := tr.ParseFlags()
@@ -600,6 +720,7 @@ func main() {
 		}
 	} else if o.Prop == "C18" || o.Prop == "" {
 		g.exhaustive()
+		g.big()
 		for i := 0; i < o.Scale(4000, 250000); i++ {
 			g.history()
 		}
